@@ -15,7 +15,7 @@ set_option maxRecDepth 100000
 
 /-- what the loop of `backTrack_SW` maintains: the slices built so far spell `s1[pi .. e1)` and
 `s2[pj .. e2)` (`e = end + 1`), have equal length and no all-gap column, and the counters add up -/
-structure Inv (s1 s2 : Seq) (e1 e2 pi pj : Nat) (st : BT) : Prop where
+private structure Inv (s1 s2 : Seq) (e1 e2 pi pj : Nat) (st : BT) : Prop where
   lenEq : st.r1.length = st.r2.length
   lenRep : st.len = st.r1.length
   noGapCol : ∀ p ∈ st.r1.zip st.r2, ¬ (p.1 = GAP ∧ p.2 = GAP)
@@ -237,15 +237,15 @@ end
 /-- the validity part of C09 for one result: two gapped rows of equal length (the reported length),
 no all-gap column, ungapped contents exactly `s1[start1 .. end1]` and `s2[start2 .. end2]`
 (inclusive ends, inside the sequences), and the three counters add up to the length -/
-structure Valid (s1 s2 : Seq) (r : Result) : Prop where
-  rows_length : r.row1.length = r.row2.length
-  length_eq : r.length = r.row1.length
-  no_all_gap : ∀ p ∈ r.row1.zip r.row2, ¬ (p.1 = GAP ∧ p.2 = GAP)
-  bounds1 : r.start1 ≤ r.end1 + 1 ∧ r.end1 < s1.length
-  bounds2 : r.start2 ≤ r.end2 + 1 ∧ r.end2 < s2.length
-  row1 : ungap r.row1 = (s1.drop r.start1).take (r.end1 + 1 - r.start1)
-  row2 : ungap r.row2 = (s2.drop r.start2).take (r.end2 + 1 - r.start2)
-  counts : r.nmatch + r.nmismatch + r.ngaps = r.length
+def Valid (s1 s2 : Seq) (r : Result) : Prop :=
+  r.row1.length = r.row2.length ∧
+  r.length = r.row1.length ∧
+  (∀ p ∈ r.row1.zip r.row2, ¬ (p.1 = GAP ∧ p.2 = GAP)) ∧
+  (r.start1 ≤ r.end1 + 1 ∧ r.end1 < s1.length) ∧
+  (r.start2 ≤ r.end2 + 1 ∧ r.end2 < s2.length) ∧
+  ungap r.row1 = (s1.drop r.start1).take (r.end1 + 1 - r.start1) ∧
+  ungap r.row2 = (s2.drop r.start2).take (r.end2 + 1 - r.start2) ∧
+  r.nmatch + r.nmismatch + r.ngaps = r.length
 
 /-- **sw_valid** — for *any* score matrix `m`, *any* trace matrix `tr`, any end cell inside the
 matrix and either stop rule, whatever `backTrack_SW` returns is valid.  (`none` = the Go code
@@ -558,11 +558,11 @@ theorem sw_rows_denote_local_alignment (s1 s2 : Seq) (r : Result) (v : Valid s1 
       Spec.SW.IsLocal s1 s2 r.start1 r.start2 cols ∧
       Spec.SW.proj1 cols = (s1.drop r.start1).take (r.end1 + 1 - r.start1) ∧
       Spec.SW.proj2 cols = (s2.drop r.start2).take (r.end2 + 1 - r.start2) := by
-  obtain ⟨cols, hc, h1, h2⟩ := colsOfRows_spec r.row1 r.row2 v.rows_length v.no_all_gap
-  refine ⟨cols, hc, ⟨by have := v.bounds1; omega, by have := v.bounds2; omega, ?_, ?_⟩,
-    h1.trans v.row1, h2.trans v.row2⟩
-  · rw [h1, v.row1]; exact List.take_prefix _ _
-  · rw [h2, v.row2]; exact List.take_prefix _ _
+  obtain ⟨vlen, _, vgap, vb1, vb2, vr1, vr2, _⟩ := v
+  obtain ⟨cols, hc, h1, h2⟩ := colsOfRows_spec r.row1 r.row2 vlen vgap
+  refine ⟨cols, hc, ⟨by omega, by omega, ?_, ?_⟩, h1.trans vr1, h2.trans vr2⟩
+  · rw [h1, vr1]; exact List.take_prefix _ _
+  · rw [h2, vr2]; exact List.take_prefix _ _
 
 /-! ## the reference optimum of the specification -/
 
